@@ -27,7 +27,7 @@ func init() {
 }
 
 var c06Tokens = []string{"vol00+01", "vol01+02", "x", "anything goes", "part-2", "VOL001+002", "a.b.c", "recovery", "[1]", "a*b", "q?", "{z}", "vol[0-9]", "", ".", ".par2", "par2"}
-var c06Bases = []string{"set", "my set", "s[1]", "a*b", "q?x", "x", "archive.v1", "[ab]c", "back\\slash", "trailing\\", "b\\[1]", "{a,b}", "~tilde", "-dash", "backup.par2.2019 [old]", "a.par2.b", "v.vol00+01"}
+var c06Bases = []string{"set", "my set", "s[1]", "a*b", "q?x", "x", "archive.v1", "[ab]c", "back\\slash", "trailing\\", "b\\[1]", "{a,b}", "~tilde", "-dash", "backup.par2.2019 [old]", "a.par2.b", "v.vol00+01", "data", "backup2", "wrap.", "rar"}
 
 func hasGlobMeta(s string) bool { return strings.ContainsAny(s, "*?[\\") }
 
